@@ -126,11 +126,13 @@ def decodeString (t : Tok) : List Nat := decodeEsc false ((t.val.drop 1).dropLas
 /-- value of an integer item (`[+-]?[0-9]*` by construction of the lexer): `none` when
 `strconv.Atoi` fails for lack of digits; overflow is not modelled separately because every
 caller rejects values outside 16 bits anyway (readInteger: see `DslGpos`). -/
+def signSplit : List Nat → Bool × List Nat
+  | 43 :: r => (false, r)
+  | 45 :: r => (true, r)
+  | r => (false, r)
+
 def atoi (bs : List Nat) : Option Int :=
-  let (neg, ds) := match bs with
-    | 43 :: r => (false, r)
-    | 45 :: r => (true, r)
-    | r => (false, r)
+  let (neg, ds) := signSplit bs
   if ds.isEmpty || !(ds.all fun d => inR 48 57 d) then none
   else
     let n := ds.foldl (fun a d => a * 10 + (d - 48)) 0
